@@ -181,7 +181,9 @@ pub fn run(cases_path: &str, out_path: &str, tier: &str, seed: u64) {
                             cfg.hashed_subpackets = vec![Subpacket::regular(SubpacketData::SignatureCreationTime(Timestamp::now()))?];
                             cfg.sign(&k4.primary_key, &Password::empty(), signed_text.as_bytes())
                         };
-                        Ok(vec![mk(HashAlgorithm::Sha256)?, mk(HashAlgorithm::Sha384)?])
+                        // every hash name the Hash header can carry, two per document
+                        let hs = [HashAlgorithm::Sha256, HashAlgorithm::Sha384, HashAlgorithm::Sha512, HashAlgorithm::Sha3_256, HashAlgorithm::Sha3_512];
+                        Ok(vec![mk(hs[ci % hs.len()])?, mk(hs[(ci + 1) % hs.len()])?])
                     })?;
                     m2.verify(&p4)?;
                     let doc = m2.to_armored_string(ArmorOptions::default())?;
